@@ -48,6 +48,9 @@ def goals(topo, slot, getv):
 def work(item):
     tj, symtype, compact, seed, timeout_ms = item[:5]
     hist = item[5] if len(item) > 5 else "fresh"
+    cflags = None
+    if hist == "options-on":
+        hist, cflags = "fresh", runs.flags_of(0b000011)  # initial clamps only: the flow identities are stated on the clamped inputs
     rename = None
     if hist == "same-names":
         # distinct elements that share a name (validation accepts them): every flow must still be reported, in element order
@@ -63,7 +66,7 @@ def work(item):
     numeric = netcheck.casadi_numeric_for(topo)
     D = [netcheck.apply_numeric(c, numeric) for c in ref_metanet.admissible_domain(topo)]
     try:
-        c = compiled.compile_terms(topo, symtype, numeric, compact, True, builder=builder, rename=rename)
+        c = compiled.compile_terms(topo, symtype, numeric, compact, True, cflags, builder=builder, rename=rename)
     except compiled.LayoutMismatch as e:
         acc.exec_violation(PID, topo, f"casadi[{tag}]", "array", f"layout: {e}", extra={"numeric": numeric, "compact": compact, "more_out": True})
         return acc.done()
@@ -89,6 +92,8 @@ def work(item):
     def getv(name):
         if numeric and name in numeric:
             return symx.zconst(symx.frac_of(numeric[name]))
+        if cflags and (name.startswith("rho_") or name.startswith("v_")):
+            return z3.If(z3.RealVal(0) >= R(name), z3.RealVal(0), R(name))  # the step uses max(0, input)
         return R(name)
 
     terms = {k: s.t for k, s in c.slot.items()}
@@ -100,22 +105,23 @@ def work(item):
     for label, lhs, rhs in G:
         def on_sat(model, label=label):
             env = netcheck.model_env(topo, model, rng, numeric)
-            return replay_point(topo, symtype, compact, numeric, env, label)
+            return replay_point(topo, symtype, compact, numeric, env, label, cflags=cflags, builder=builder, rename=rename)
 
         acc.query(prover, topo, f"casadi[{tag}]", label, lhs == rhs, D, (), on_sat)
     return acc.done(prover)
 
 
-def replay_point(topo, symtype, compact, numeric, env, label, verbose=False):
+def replay_point(topo, symtype, compact, numeric, env, label, verbose=False, cflags=None, builder=None, rename=None):
     try:
-        c = compiled.compile_terms(topo, symtype, numeric, compact, True)
+        c = compiled.compile_terms(topo, symtype, numeric, compact, True, cflags, builder=builder, rename=rename)
         real = c.numeric_call(env)
     except Exception:  # noqa
         return None
     envn = dict(env)
     if numeric:
         envn.update({k: float(v) for k, v in numeric.items()})
-    for lab, lhs, rhs in goals(topo, real, lambda n: envn[n]):
+    clamp = (lambda n: max(0.0, envn[n]) if (cflags and (n.startswith("rho_") or n.startswith("v_"))) else envn[n])
+    for lab, lhs, rhs in goals(topo, real, clamp):
         if lab != label:
             continue
         if verbose:
@@ -123,7 +129,7 @@ def replay_point(topo, symtype, compact, numeric, env, label, verbose=False):
         if not numrun.close(lhs, rhs, 1e-7, 1e-9):
             return {"key": f"flow:{topo.name}:{symtype}:c{compact}:{label}", "group": f"flow:{topo.name}:{label.split(' ')[0]}",
                     "what": f"{topo.describe()} | {symtype} compact={compact}: {label} fails: {lhs!r} != {rhs!r}",
-                    "replay": {"property": PID, "kind": "flow", "topo": topo.to_json(), "symtype": symtype, "compact": compact, "numeric": numeric, "env": env, "label": label}}
+                    "replay": {"property": PID, "kind": "flow", "topo": topo.to_json(), "symtype": symtype, "compact": compact, "numeric": numeric, "env": env, "label": label, "cflags": cflags}}
     return None
 
 
@@ -132,7 +138,7 @@ def replay(rec):
         print(rec["msg"])
         return netcheck.replay_exec(rec) or 1
     topo = T_.Topo.from_json(rec["topo"])
-    return 1 if replay_point(topo, rec["symtype"], rec["compact"], rec.get("numeric"), rec["env"], rec["label"], True) else 0
+    return 1 if replay_point(topo, rec["symtype"], rec["compact"], rec.get("numeric"), rec["env"], rec["label"], True, cflags=rec.get("cflags")) else 0
 
 
 def main():
@@ -153,6 +159,10 @@ def main():
         hs = ["decoy-attachments-replaced", "decoy-links-replaced", "reads-interleaved", "same-names"]
         for h in (hs if args.thorough else [hs[k % 3], "same-names"]):
             items.append((t.to_json(), ("SX", "MX")[k % 2], k % 3, args.seed + k, timeout, h))
+    # a 12-segment link with the initial positivity options on (arguments recovered from clamped expressions)
+    for st in ("SX", "MX"):
+        for c in (0, 1):
+            items.append((families.long_link().to_json(), st, c, args.seed, timeout, "options-on"))
     if args.thorough:
         for k, t in enumerate(families.E(3, 4) + families.random_topos(args.seed, 30)):
             items.append((t.to_json(), ("SX", "MX")[k % 2], k % 3, args.seed + k, 60000))
